@@ -310,13 +310,13 @@ func RunCheck(id, tier string, seed int, verifDir string) int {
 		"obligation_list":          obsOut,
 		"solver_time_s":            round3(solveS), "load_s": round3(loadS), "vcgen_s": round3(genS),
 		"solver_time_by_backend": perSolver, "discharged_by_backend": perSolverN,
-		"inlined_callees":        sortedNotes(inlined),
-		"uncovered_clauses":      meta.Uncovered,
-		"bounded":                meta.Bounded,
-		"known_findings_seen":    knownSeen,
-		"samples":                samples,
-		"explanation":            meta.Explanation,
-		"paths_total":            totalPaths(freps),
+		"inlined_callees":     sortedNotes(inlined),
+		"uncovered_clauses":   meta.Uncovered,
+		"bounded":             meta.Bounded,
+		"known_findings_seen": knownSeen,
+		"samples":             samples,
+		"explanation":         meta.Explanation,
+		"paths_total":         totalPaths(freps),
 	}
 	if meta.Level != "proof" {
 		cov["evaluations"] = len(res)
